@@ -706,7 +706,12 @@ class Interp:
         is_and = isinstance(n.op, ast.And)
 
         def comb(x, y, node):
-            tx = x if isinstance(x, bool) else (None if is_opaque(x) else s.truth(x, node))
+            if is_opaque(x) and not isinstance(x, Mismatch):
+                # an operand the model cannot evaluate is an opaque condition of its own: the other operands keep their structure
+                txt = " ".join(ast.unparse(node).split())
+                tx = (Cond.get(("src", txt), txt), True)
+            else:
+                tx = x if isinstance(x, bool) else (None if is_opaque(x) else s.truth(x, node))
             if tx is None: return Opaque("bool of opaque")
             if is_and:
                 if tx is True: return y
